@@ -10,8 +10,8 @@ BASELINE_CMD = "cd /repo && /venv/bin/python -m pytest -ra -q -p no:cacheprovide
 CHECKS = {
     "C02": (
         "explicit-state BFS to fixpoint over operation histories of the real stores, lock-step list model",
-        "All reachable states of the real memory/sqlite/peewee stores under the event-op alphabet with <=K live events are enumerated (BFS to fixpoint, canonical form = raw table dump with rank-renamed ids) and after every transition the full bucket (listing, lookup of live and dead ids, count, replace-last target, frame) is compared with a plain list model. Exhaustive within the alphabet and K; unit tests sample ~25 fixed scripts.",
-        "Trusted: SQLite itself; the reference list model (60 lines); rank-renaming canonicalisation (cross-checked at run time against id-shifted twin histories). Values outside the 6/18-event alphabet are not explored here.",
+        "All reachable states of the real memory/sqlite/peewee stores under the event-op alphabet with <=K live events are enumerated (BFS to fixpoint; canonical form = raw table dump with rank-renamed ids + id-gap shape + hidden object state; 1 s and 1 ms lattices) and after every transition the full bucket (listing, lookup of live and dead ids, count, replace-last target, frame) is compared with a plain list model. Exhaustive within the alphabet and K; unit tests sample ~25 fixed scripts.",
+        "Trusted: SQLite itself; the reference list model (60 lines); the canonical form (refined by id-gap shape and hidden object state after two seeded faults were merged away without them). Values outside the 6/18-event alphabet are not explored here.",
         "DESIGN.md 3.2, 4 C02",
     ),
 }
@@ -19,19 +19,19 @@ CHECKS = {
 CHECKS.update({
     "C03": (
         "bounded-exhaustive enumeration of bucket contents x windows x limits on the real stores, integer interval oracle",
-        "Every multiset of <=2 (thorough 3) lattice events x every window (open-ended, zero-width, sub-ms shifted, tz-offset) x limits is stored in and read from each real backend in three time embeddings (1 s, 1 ms, 6 h crossing midnight with 24 h events) and compared with closed-interval arithmetic under the statement's 2 ms tolerance; eventcount for every window. Complete per order type of the endpoints for n events.",
+        "Every multiset of <=2 (thorough 3) lattice events x every window (open-ended, zero-width, sub-ms shifted, tz-offset) x limits is stored in and read from each real backend in four time embeddings (1 s, 1 ms, 1 ms straddling a whole-second boundary, 6 h crossing midnight with 24 h events) and compared with closed-interval arithmetic under the statement's 2 ms tolerance; eventcount for every window. Complete per order type of the endpoints for n events.",
         "Trusted: the 40-line interval oracle; SQLite. Events within 2 ms of an edge are free by the statement. Events > 24 h and contents with > 3 events are not generated.",
         "DESIGN.md 3.4, 4 C03",
     ),
     "C04": (
         "explicit-state BFS over two-bucket histories of the real stores with exhaustive probe ops (all ids in the database) and a frame oracle",
-        "All reachable states of a three-bucket database (A, B operated, <=2 live events each, instants coinciding across buckets) are enumerated on each real backend; in every state every operation is issued against A with every id present anywhere in the database or never-existed, plus update/delete bucket; every other bucket's listing and metadata must be identical afterwards.",
+        "All reachable states of a three-bucket database (A, B operated, <=2 live events each, instants coinciding across buckets) are enumerated on each real backend; in every state every operation is issued against A with every id present anywhere in the database or never-existed, plus update/delete bucket, plus 8 REJECTED operations issued while the last write of the history is still unobserved (buffered); every other bucket's listing and metadata must be identical afterwards.",
         "Trusted: SQLite; canonical form as in C02. Only the frame is compared (the op may succeed or raise).",
         "DESIGN.md 3.2, 4 C04",
     ),
     "C07": (
         "exhaustive enumeration of heartbeat streams fed through the real stores, compared with heartbeat_reduce after every heartbeat",
-        "Every heartbeat stream of length <=4 (thorough 5) with strictly increasing starts and non-decreasing ends on a lattice, 2 labels, pulsetimes below/at/above the gaps, is ingested by the standard loop into each real backend sharing its database with a bucket populated at every lattice instant; after every heartbeat the bucket equals heartbeat_reduce(prefix), earlier events are untouched, the other bucket is unchanged.",
+        "Every heartbeat stream of length <=4 (thorough 5) with strictly increasing starts and non-decreasing ends on a lattice (1 s; <=3 heartbeats also at 1 ms and 100 ms), 2 labels, pulsetimes below/at/above the gaps, is ingested by the standard loop into each real backend sharing its database with a bucket populated at every lattice instant; after every heartbeat the bucket equals heartbeat_reduce(prefix), earlier events are untouched, the other bucket is unchanged; a second phase interleaves every sequence of reads of / rejected operations on other buckets between the heartbeats without observing in between.",
         "Trusted: heartbeat_reduce of the working tree as oracle (itself checked against the hull rule by C08); SQLite.",
         "DESIGN.md 4 C07",
     ),
@@ -97,7 +97,7 @@ CHECKS.update({
     ),
     "C06": (
         "explicit-state BFS over write/read/bucket/clock histories of the real file-backed stores with exhaustive crash-point enumeration (image before every SQL statement and at every return), prefix-chain model",
-        "All reachable commit-protocol states of the real sqlite store (uncommitted counter 0..50 x elapsed class x enabledness) are enumerated to fixpoint under 18 operations incl. bulk inserts of 2/49/50/51 rows; for every transition the database files are imaged before every SQL statement of the operation and at its return, reopened the way a restarted process would (real constructor), and compared with the chain of model states: must be a prefix in issue order, durability never regresses, single-event/bucket-level ops are never split, bucket ops and reads flush, at most 64 elementary writes (deletions counted, explored from a 70-event bucket) are missing at return; peewee: every completed op durable. The imaging method is validated against real SIGKILL / exit-without-shutdown of a forked child at 24 points per run.",
+        "All reachable commit-protocol states of the real sqlite store (uncommitted counter 0..50 x elapsed class x enabledness) are enumerated to fixpoint under ~20 operations incl. bulk inserts of 2/49/50/51 rows, upsert-only batches and REJECTED operations (update/delete of an absent bucket, bulk insert through a stale handle or with unserialisable data); for every transition the database files are imaged before every SQL statement of the operation and at its return, reopened the way a restarted process would (real constructor), and compared with the chain of model states: must be a prefix in issue order, durability never regresses, single-event/bucket-level ops are never split, bucket ops and reads flush, at most 64 elementary writes (deletions counted, explored from a 70-event bucket) are missing at return; peewee: every completed op durable. The imaging method is validated against real SIGKILL / exit-without-shutdown of a forked child at 24 points per run.",
         "Trusted: SQLite's atomic commit; process death (not power loss). Content of events is abstracted in the canonical form (cannot influence the commit decision).",
         "DESIGN.md 3.3, 4 C06",
     ),
@@ -115,19 +115,19 @@ CHECKS.update({
     ),
     "C11": (
         "bounded-exhaustive enumeration of query programs from the grammar (AST-first) x separator-spacing styles, reference parser + reference evaluator",
-        "All calls of probe functions with 0-3 arguments over 15 argument shapes (ints, strings containing commas/brackets/'='/escaped quotes, empty and nested lists/dicts, calls, variables) x 8 contexts (top level, list element, dict value, argument, bound/rebound/aliased variables) x all 40 spacing styles; all list/dict literals of depth <=2; every registered built-in with well-typed argument pools given as literal, variable and nested call. Each printed program is re-parsed by an independent reference parser to the same AST, run through aw_query.query2.query and compared with a reference evaluator over the AST (~1.06 M executions quick).",
+        "All calls of probe functions with 0-3 arguments over 35 argument shapes (ints, strings containing commas/brackets/'='/escaped quotes -- bare and nested inside lists, nested lists, dict values and dict keys --, empty and nested lists/dicts, calls, variables) x 12 contexts (top level, list element, dict value, argument, bound/rebound/aliased variables, RETURN rebound / followed by further or failing statements) x 40 spacing styles (3 styles for 3-argument calls in the quick tier); all list/dict literals of depth <=2; every registered built-in with well-typed argument pools given as literal, variable and nested call. Each printed program is re-parsed by an independent reference parser to the same AST, run through aw_query.query2.query and compared with a reference evaluator over the AST (~1.3 M executions quick).",
         "Trusted: the 90-line reference parser/evaluator. Built-ins are compared with the same aw_transform function applied to the reference argument values. Text outside the stated grammar is C17's subject.",
         "DESIGN.md 3.5, 4 C11",
     ),
     "C17": (
         "exhaustive enumeration of all strings up to a length bound over a token alphabet, all single-edit corruptions of a program corpus, and all arity/type combinations of every built-in",
-        "ALL strings of <=5 symbols over an 18-symbol alphabet (letters, digit, both quotes, all brackets, separators, space, backslash, a function name, a non-ASCII digit) in three contexts (6.0 M texts), every single-edit corruption of a 30-program corpus, and every built-in with 0..arity+1 arguments x 6 top-level types per position are run under a 5 s alarm; outcome must be a value or a QueryException subclass (class checked for the resolution part); exceptions raised while a transform/q2_* body executes are counted as deep data-shape errors and not flagged.",
+        "ALL strings of <=5 symbols over a 19-symbol alphabet (letter, digit, both quotes, all brackets, separators, space, backslash, minus, a function name, a non-ASCII digit) in three contexts (7.4 M texts), every single-edit corruption of a 30-program corpus, and every built-in with 0..arity+1 arguments x 6 top-level types per position (expected types from a table in the check, not from the implementation's annotations) are run under a 5 s alarm (and a per-worker progress record that names a text stuck in uninterruptible C code); outcome must be a value or a QueryException subclass (class checked for the resolution part); exceptions raised while a transform/q2_* body executes are counted as deep data-shape errors and not flagged.",
         "Trusted: the exception-origin classification by traceback frames. Strings longer than the bound are covered only through the corruption corpus.",
         "DESIGN.md 3.5, 4 C17",
     ),
     "C12": (
         "bounded-exhaustive enumeration of query pipelines x query windows on seeded real stores, whole-store before/after comparison",
-        "Every pipeline of depth <=2 of built-ins over query_bucket(b1|b2) (15 unary forms incl. all in-place annotators and the data-clearing period_union, 4 binary forms, aliasing forms), each also with a raising statement appended (unknown function / wrong type / unknown bucket / undefined variable), x 12 query windows (zero-width, empty, sub-ms shifted, tz-offset forms) is run on each real backend; the complete store (every event of every bucket + metadata) is dumped before and after every query; query_bucket and query_bucket_eventcount are compared with direct windowed reads for every window and bucket.",
+        "Every pipeline of depth <=2 of built-ins over query_bucket(b1|b2) (15 unary forms incl. all in-place annotators and the data-clearing period_union, 4 binary forms, aliasing forms), each also with a raising statement appended (unknown function / wrong type / unknown bucket / undefined variable), x 12 query windows (zero-width, empty, sub-ms shifted, tz-offset forms) is run on each real backend; the complete store (every event of every bucket + metadata) is dumped before and after every query; query_bucket and query_bucket_eventcount are compared with direct windowed reads for every window and bucket, also as a SECOND fetch after an in-place transform within the same query.",
         "Trusted: the dump through the public API (C01/C02 check it). Programs beyond depth 2 (thorough 3) are not explored.",
         "DESIGN.md 3.5, 4 C12",
     ),
